@@ -7,13 +7,13 @@ P = {
     "design_ref": "DESIGN.md section 3 C12",
     "variant": "fi",
     "sources": ["harness/props/C12.cpp", "harness/common/alloc_hook.c"],
-    "rule": "case = (script, variant, fault point); the script is run fault-free counting the allocations libvna requests in every step, then again with allocation k of step s returning NULL/ENOMEM once, the same call repeated without fault if it failed, and the rest of the script; 20 hand-written scripts (vnadata alloc/init/resize/z0 modes/convert/formats/NPD/Touchstone 1+2 save+load; vnaproperty set/queries/copy/quote/YAML export+import; vnacal parameters of every kind across the table growth; E12 SOLT, T8 a/b through every add_* entry point, TRL, auto solve with an unknown, weighted solve with an error model on its own grid, correlated parameters, three calibrations with replace/delete/find, T16/U16; type-changing overwrites of property-tree nodes in every direction through set/set_subtree/delete/copy/import and vnacal_property_*; unknown and correlated parameters shared by three vnacal_new_t structures with 3, 2 and 4 frequency points; add_calibration, properties, save, load, apply) plus, in the thorough tier, a generated family of 144 calibration histories (8 types x {1x1,2x2,2x1|1x2} x F in {1,2,3} x {m, a/b}); oracle: the faulted call succeeds (then without a non-warning callback) or returns its documented failure value with errno == ENOMEM and, for functions documented to report, a VNAERR_SYSTEM callback; no sanitizer report; after a FAILED call the step's observations (getters, property walks, vnacal_get_parameter_value at several frequencies) are made on the objects as the failure left them and must not crash and must give documented answers (finite value or HUGE_VAL with errno); the repeated call succeeds; digest (returned handles/indices, getters, property trees, text of saved files, apply output) equals the fault-free run; LeakSanitizer clean after every case whose heap grew; distinct = (script, variant, step, k); non-trivial = fault point whose call actually failed (allocation not absorbed)",
+    "rule": "case = (script, variant, fault point); the script is run fault-free counting the allocations libvna requests in every step, then again with allocation k of step s returning NULL/ENOMEM once, the same call repeated without fault if it failed, and the rest of the script; 22 hand-written scripts (vnadata alloc/init/resize/z0 modes/convert/formats/NPD/Touchstone 1+2 save+load; vnaproperty set/queries/copy/quote/YAML export+import; vnacal parameters of every kind across the table growth; E12 SOLT, T8 a/b through every add_* entry point, TRL, auto solve with an unknown, weighted solve with an error model on its own grid, correlated parameters, three calibrations with replace/delete/find, T16/U16; type-changing overwrites of property-tree nodes in every direction through set/set_subtree/delete/copy/import and vnacal_property_*; unknown and correlated parameters shared by three vnacal_new_t structures with 3, 2 and 4 frequency points; replacement of a k-field vnadata format by j-field ones (j<k, j>k, none) directly and through NPD #:parameters; add_calibration, properties, save, load, apply) plus, in the thorough tier, a generated family of 144 calibration histories (8 types x {1x1,2x2,2x1|1x2} x F in {1,2,3} x {m, a/b}); oracle: the faulted call succeeds (then without a non-warning callback) or returns its documented failure value with errno == ENOMEM and, for functions documented to report, a VNAERR_SYSTEM callback; no sanitizer report; after a FAILED call the step's observations (getters, property walks, vnacal_get_parameter_value at several frequencies) are made on the objects as the failure left them and must not crash and must give documented answers (finite value or HUGE_VAL with errno); every vnadata observation includes the bytes vnadata_fsave writes to a memory stream and every vnacal observation the bytes vnacal_save writes to a memory file; if a failed call left every getter as it was, those bytes must be unchanged too; the repeated call succeeds; digest (returned handles/indices, getters, property trees, bytes saved by every observed object, text of saved files, apply output) equals the fault-free run; LeakSanitizer clean after every case whose heap grew; distinct = (script, variant, step, k); non-trivial = fault point whose call actually failed (allocation not absorbed)",
     "assumptions": COMMON_ASSUME + [
         "only allocations requested by libvna's own translation units are failed (alloc_hook.h is force-included into them); libyaml, libm and libc keep the real allocator",
         "one fault per history; the history itself is valid (every step succeeds without fault)",
         "observable state = getters, property trees, text of saved files, apply output; handle values and addresses are not compared",
     ],
-    "exhaustive_scope": "every (script, step, allocation index) of the 20 hand-written scripts and of variant 0 of the generated family (quick); plus all 144 generated calibration histories (thorough)",
+    "exhaustive_scope": "every (script, step, allocation index) of the 22 hand-written scripts and of variant 0 of the generated family (quick); plus all 144 generated calibration histories (thorough)",
     "tiers": tiers(
         # max_size 1: hand-written scripts + variant 0 of the generated family; max_size 2: all generated variants
         quick=[{"name": "enum", "mode": "enum", "count": 10000000, "max_size": 1, "shards": 16, "max_seconds": 600, "hang_seconds": 60}],
